@@ -13,6 +13,7 @@ import (
 	"sync"
 
 	res "github.com/jirenius/go-res"
+	nats "github.com/nats-io/nats.go"
 	"pgregory.net/rapid"
 
 	"verifharness/internal/fakeconn"
@@ -64,6 +65,9 @@ type Case struct {
 	ServeTwice bool `json:"serveTwice,omitempty"`
 	// NoReplyDup publishes every request once more without reply subject beforehand.
 	NoReplyDup bool `json:"noReplyDup,omitempty"`
+	// FailPub > 1: the connection refuses its FailPub-th publish, once (as a server does
+	// with a payload above its limit); everything before and after is accepted (Run only).
+	FailPub int `json:"failPub,omitempty"`
 }
 
 func (c Case) String() string {
@@ -113,6 +117,8 @@ type Result struct {
 	Obs       []Obs
 	Log       []fakeconn.Entry
 	ProbeOK   bool
+	// FailedPub is the subject of the publish that the connection refused (FailPub).
+	FailedPub string
 	Errors    []string
 	StartErr  error
 	StopErr   error
@@ -331,6 +337,18 @@ func Run(c *Case) *Result {
 	s := Build(c, rs)
 	conn := fakeconn.New()
 	out := &Result{}
+	if c.FailPub > 1 {
+		var fmu sync.Mutex
+		conn.FailPublish = func(subject string, n int) error {
+			if n != c.FailPub {
+				return nil
+			}
+			fmu.Lock()
+			out.FailedPub = subject
+			fmu.Unlock()
+			return nats.ErrMaxPayload
+		}
+	}
 	startFn := svc.Start
 	if c.NoLogger {
 		startFn = svc.StartNoLog
@@ -396,6 +414,7 @@ func Run(c *Case) *Result {
 	rs.cur = -1
 	rs.mu.Unlock()
 	if out.WaitErr == nil {
+		conn.FailPublish = nil // (the probe itself is never the refused publish)
 		probe := "get." + c.Name + ".verifprobe"
 		reply, n := r.Send(probe, nil)
 		if n > 0 && r.WaitDone(reply, 1) == nil {
@@ -728,6 +747,11 @@ func GenHandlers() *rapid.Generator[[]HandlerSpec] {
 	})
 }
 
+// ExoticNames lets generated resource names hold parts outside the protocol's character
+// range (non-ASCII). Only a check that claims nothing about what is published for such a
+// name sets it (C04: the request is still answered once).
+var ExoticNames bool
+
 func instantiate(t *rapid.T, name, pattern string, extra ...string) string {
 	if pattern == "" {
 		return name // the root resource, named like the service
@@ -735,7 +759,11 @@ func instantiate(t *rapid.T, name, pattern string, extra ...string) string {
 	var out []string
 	// (extra: literal tokens of the other handlers' patterns, so that placeholders also take
 	// values that lead into other branches of the mux, e.g. into a mounted sub-mux)
-	part := rapid.SampledFrom(append([]string{"1", "42", "a", "new", "get", "set", "x-y", "$z", "call", "ID"}, extra...))
+	pool := []string{"1", "42", "a", "new", "get", "set", "x-y", "$z", "call", "ID"}
+	if ExoticNames {
+		pool = append(pool, "josé", "ü")
+	}
+	part := rapid.SampledFrom(append(pool, extra...))
 	for _, tk := range refmux.Tokens(pattern) {
 		switch refmux.Kind(tk) {
 		case refmux.Lit:
